@@ -60,7 +60,8 @@ Streamed(profile, ct) == profile = "streaming" \/ (profile = "auto" /\ ct \in {"
 Slack == 3000
 FlowOK(e)  == /\ (Streamed(e.profile, e.ct) => (~e.stuck /\ e.seen = e.n))       \* gated backend completed
               /\ (e.complete => e.whole)                                         \* delivered whole, byte-identical
-StallOK(e) == e.ended /\ e.ms <= e.rt + Slack                                    \* cut within RT + slack
+\* cut within RT + slack; before the response head it is the response timeout that governs
+StallOK(e) == e.ended /\ e.ms <= (IF e.at = "prehdr" THEN e.rsp ELSE e.rt) + Slack
 PauseOK(e) == (e.gap < e.rt) => (e.complete /\ e.whole)                          \* a short pause is not cut
 AbortOK(e) == e.upstreamClosed /\ e.ms <= Slack                                  \* cancellation propagates
 LeakOK(e)  == e.after - e.before < e.reps                                        \* no linear growth
